@@ -88,6 +88,21 @@ theorem C07_admission_notifies_iff_popped (q : List Nat) (r : Nat) (th : Option 
     K4.admissionNotifies q r th = !(K4.admission q r th).1.isEmpty :=
   admissionNotifies_spec q r th
 
+/-- (the blocking-protocol model abstracts the real section faithfully) the hand-over thread's locked section — the regenerated
+kernel — shortens the queue by exactly the number of jobs it takes and notifies the blocked submitters iff that number is positive:
+it is `BlockProto.pop k` with `k = (K4.admission q r th).1.length`. -/
+theorem C07_admission_is_block_pop (q : List Nat) (r : Nat) (th : Option Nat) :
+    (K4.admission q r th).2.1.length = q.length - (K4.admission q r th).1.length ∧
+    (K4.admission q r th).1.length ≤ q.length ∧
+    (K4.admissionNotifies q r th = true ↔ 0 < (K4.admission q r th).1.length) := by
+  obtain ⟨h1, _, _, _, _⟩ := admit_spec q r th
+  have hl : q.length = (K4.admission q r th).1.length + (K4.admission q r th).2.1.length := by
+    conv => lhs; rw [h1]
+    simp
+  refine ⟨by omega, by omega, ?_⟩
+  rw [admissionNotifies_spec]
+  cases h : (K4.admission q r th).1 <;> simp
+
 /-- (admission kernel, regenerated from `_submit_loop_iter`) takes a prefix of the queue, counts every taken job,
 stops only on an empty queue or a full counter, and never over-fills. -/
 theorem C07_admission_kernel (q : List Nat) (r : Nat) (th : Option Nat) :
